@@ -898,12 +898,59 @@ func c08R7(p *Prog, r *Report) {
 	n := 0
 	Instrs(fn, func(in ssa.Instruction) {
 		call, ok := in.(*ssa.Call)
-		if !ok || call.Call.StaticCallee() == nil || call.Call.StaticCallee().Name() != "edgeMultiShouldRecord" || InLoop(call) || len(call.Call.Args) < 5 {
+		if !ok || InLoop(call) {
 			return
 		}
+		var v, x ssa.Value
+		var nsampP Poly
+		if call.Call.StaticCallee() != nil && call.Call.StaticCallee().Name() == "edgeMultiShouldRecord" && len(call.Call.Args) >= 5 {
+			v, x = call.Call.Args[1], call.Call.Args[2]
+			nsampP = g.PC.Of(call.Call.Args[4])
+		} else {
+			// a local wrapper (closure or helper) that passes its own parameters on to the
+			// record-spec function: `recordize(prev, cur, next)`
+			var w *ssa.Function
+			if mc, isMC := call.Call.Value.(*ssa.MakeClosure); isMC {
+				w, _ = mc.Fn.(*ssa.Function)
+			} else if sc := call.Call.StaticCallee(); isModuleFn(sc) {
+				w = sc
+			}
+			if w == nil || len(w.Params) != len(call.Call.Args) {
+				return
+			}
+			var inner *ssa.Call
+			ninner := 0
+			Instrs(w, func(y ssa.Instruction) {
+				if c2, ok := y.(*ssa.Call); ok && c2.Call.StaticCallee() != nil && c2.Call.StaticCallee().Name() == "edgeMultiShouldRecord" && len(c2.Call.Args) >= 5 {
+					inner = c2
+					ninner++
+				}
+			})
+			if ninner != 1 {
+				return
+			}
+			argOf := func(pv ssa.Value) ssa.Value {
+				for i, q := range w.Params {
+					if ssa.Value(q) == pv {
+						return call.Call.Args[i]
+					}
+				}
+				return nil
+			}
+			v, x = argOf(inner.Call.Args[1]), argOf(inner.Call.Args[2])
+			if v == nil || x == nil {
+				return
+			}
+			if a := argOf(inner.Call.Args[4]); a != nil {
+				nsampP = g.PC.Of(a)
+			} else if _, f, _, okf := FieldOf(inner.Call.Args[4]); okf && f == "nsamp" && len(fn.Params) > 0 {
+				nsampP = polySym(g.PC.rootName(fn.Params[0]) + ".nsamp")
+			} else {
+				return
+			}
+		}
 		n++
-		v, x, nsamp := call.Call.Args[1], call.Call.Args[2], call.Call.Args[4]
-		goal := g.PC.Of(x).Sub(g.PC.Of(v)).Sub(g.PC.Of(nsamp)).Sub(polyConst(1))
+		goal := g.PC.Of(x).Sub(g.PC.Of(v)).Sub(nsampP).Sub(polyConst(1))
 		key := "the pending trigger is recordised early only when a full record lies before the search horizon"
 		if g.Prove(goal, call) {
 			r.OK("C08.R7", key, p.InstrPos(call), "v + nsamp < (next frame to inspect) proven from the controlling guards")
@@ -920,7 +967,7 @@ func c08R7(p *Prog, r *Report) {
 				}
 			}
 			if rawPrm != nil && f0 != nil {
-				goal2 := g.PC.lenOf(rawPrm).Add(g.PC.Of(f0)).Sub(g.PC.Of(v)).Sub(g.PC.Of(nsamp)).Sub(polyConst(1))
+				goal2 := g.PC.lenOf(rawPrm).Add(g.PC.Of(f0)).Sub(g.PC.Of(v)).Sub(nsampP).Sub(polyConst(1))
 				proven2 := g.Prove(goal2, call)
 				if !proven2 {
 					// the comparison may be written in a narrower integer type (sample indices as
@@ -929,8 +976,8 @@ func c08R7(p *Prog, r *Report) {
 					summaryCache = map[summaryKey][]Fact{}
 					polyIgnoreNarrowing = true
 					g2 := NewGuardCtx(p, fn, nil)
-					goal2n := g2.PC.lenOf(rawPrm).Add(g2.PC.Of(f0)).Sub(g2.PC.Of(v)).Sub(g2.PC.Of(nsamp)).Sub(polyConst(1))
-					goal1n := g2.PC.Of(x).Sub(g2.PC.Of(v)).Sub(g2.PC.Of(nsamp)).Sub(polyConst(1))
+					goal2n := g2.PC.lenOf(rawPrm).Add(g2.PC.Of(f0)).Sub(g2.PC.Of(v)).Sub(nsampP).Sub(polyConst(1))
+					goal1n := g2.PC.Of(x).Sub(g2.PC.Of(v)).Sub(nsampP).Sub(polyConst(1))
 					proven2 = g2.Prove(goal2n, call) && !g2.Prove(goal1n, call)
 					polyIgnoreNarrowing = false
 					summaryCache = savedCache
